@@ -72,9 +72,11 @@ func typeAt(y *yang.YangType, depth int) *yref.XType {
 	}
 	if y.Enum != nil {
 		x.Enums = y.Enum.NameMap()
+		x.EnumByValue = y.Enum.ValueMap()
 	}
 	if y.Bit != nil {
 		x.Bits = y.Bit.NameMap()
+		x.BitByValue = y.Bit.ValueMap()
 	}
 	if y.IdentityBase != nil {
 		x.IdentityBase = OwnerName(y.IdentityBase) + ":" + y.IdentityBase.Name
